@@ -3,6 +3,7 @@ import NetVerif.Gen.C39
 import NetVerif.Model.HtmlTokExact
 import NetVerif.Proofs.Lemmas.HtmlTokExact
 import NetVerif.Proofs.Lemmas.HtmlTokMaxBuf
+import NetVerif.Proofs.Lemmas.HtmlTokFinal
 /-!
 C39 — HTML tokenization is lossless; MaxBuf bound.
 
@@ -382,9 +383,8 @@ theorem exact_tokens_chained (z0 : Z) : StartsAt z0.rawEnd (tokenizeAll z0).1 :=
 /-- The ErrorToken, too, starts where the last token stopped. -/
 theorem exact_error_token_starts_at_cursor (z : Z) : (next z).2.rawStart = z.rawEnd := (next_frame z).1
 
-/-- Side condition NOT proved for the exact model (it is the no-panic invariant of
-the Go code: `z.raw.end` is never moved before `z.raw.start`): checked on every
-D-tie case, where the Go side would panic with a negative slice bound. -/
+/-- `raw.start ≤ raw.end` for every token: the no-panic invariant of the Go code
+(`z.raw.end` is never moved before `z.raw.start`, `z.buf[z.raw.start:z.raw.end]` is a valid slice). -/
 def SpanOrder (toks : List TokSpan) : Prop := ∀ t ∈ toks, t.start ≤ t.stop
 
 theorem chained_of_startsAt (c : Nat) (toks : List TokSpan) (h : StartsAt c toks) (ho : SpanOrder toks) :
@@ -396,15 +396,197 @@ theorem chained_of_startsAt (c : Nat) (toks : List TokSpan) (h : StartsAt c toks
     simp only [List.map_cons, Chained]
     exact ⟨h.1, ho t (by simp), ih t.stop h.2 (fun t' ht' => ho t' (by simp [ht']))⟩
 
-/-- Losslessness of the exact model, modulo `SpanOrder`: the concatenation of the
-raws is the prefix of the input up to the final cursor. -/
-theorem exact_lossless_partial (z0 : Z) (h0 : z0.rawEnd = 0) (ho : SpanOrder (tokenizeAll z0).1) :
-    (raws z0.inp.toList ((tokenizeAll z0).1.map fun t => (t.start, t.stop))).flatten =
-      z0.inp.toList.take (finalCursor 0 ((tokenizeAll z0).1.map fun t => (t.start, t.stop))) := by
-  apply prefix_of_chained
-  have := exact_tokens_chained z0
-  rw [h0] at this
-  exact chained_of_startsAt 0 _ this ho
+section Run
+open NetVerif.Proofs.Lemmas.HtmlTokSpan (Ok next_span)
+open NetVerif.Proofs.Lemmas.HtmlTokFuel (rem fo_next good_next GoodResult OpenTag)
+open NetVerif.Proofs.Lemmas.HtmlTokMaxBuf (Between next_bound)
+
+/-- where the cursor is after the listed tokens -/
+def lastStop : Nat → List TokSpan → Nat
+  | c, [] => c
+  | _, t :: ts => lastStop t.stop ts
+
+theorem lastStop_eq_finalCursor (c : Nat) (toks : List TokSpan) :
+    lastStop c toks = finalCursor c (toks.map fun t => (t.start, t.stop)) := by
+  induction toks generalizing c with
+  | nil => rfl
+  | cons t ts ih => simp only [lastStop, List.map_cons, finalCursor]; exact ih _
+
+/-- Everything that is true of a complete run of the exact model. -/
+structure RunFacts (z : Z) (acc : List TokSpan) (res : List TokSpan × Z) : Prop where
+  fuel : res.2.fuelOut = z.fuelOut
+  ex : ∃ rest zl, res.1 = acc.reverse ++ rest ∧ StartsAt z.rawEnd rest ∧
+        (∀ t ∈ rest, t.start < t.stop ∧ t.stop ≤ z.inp.size) ∧
+        Ok zl ∧ Between zl ∧ zl.inp = z.inp ∧ zl.rawEnd = lastStop z.rawEnd rest ∧
+        res.2 = (next zl).2 ∧ (next zl).1 = 0
+
+theorem runLoop_facts (f : Nat) (z : Z) (acc : List TokSpan) (h : Ok z) (hb : Between z) (hf : rem z < f) :
+    RunFacts z acc (runLoop f z acc) := by
+  induction f generalizing z acc with
+  | zero => omega
+  | succ f ih =>
+    have hfo := fo_next z h
+    have hfr := next_frame z
+    have hsp := next_span z h
+    have hg := good_next z h
+    have hbd := (next_bound z hb).1
+    simp only [runLoop]
+    split
+    · rename_i hty
+      exact ⟨hfo, [], z, by simp, trivial, by simp, h, hb, rfl, rfl, rfl, hty⟩
+    · rename_i hty
+      have hne := hg.1 hty
+      have hrem : rem (next z).2 < f := by
+        have h1 : z.rawEnd + 1 ≤ (next z).2.rawEnd := by rw [← hfr.1]; omega
+        have h2 := hsp.2.1
+        have h3 : rem z < f + 1 := hf
+        unfold rem at *
+        rw [hfr.2.1] at h2 ⊢
+        omega
+      obtain ⟨ifuel, rest, zl, e1, e2, e3, e4, e5, e6, e7, e8, e9⟩ :=
+        ih (next z).2 ({ ty := (next z).1, start := (next z).2.rawStart, stop := (next z).2.rawEnd } :: acc) hsp.2 hbd hrem
+      refine ⟨ifuel.trans hfo, { ty := (next z).1, start := (next z).2.rawStart, stop := (next z).2.rawEnd } :: rest,
+        zl, ?_, ?_, ?_, e4, e5, e6.trans hfr.2.1, ?_, e8, e9⟩
+      · rw [e1]; simp
+      · exact ⟨hfr.1, e2⟩
+      · intro t ht
+        simp only [List.mem_cons] at ht
+        rcases ht with rfl | ht
+        · exact ⟨hne, by have := hsp.2.1; rw [hfr.2.1] at this; exact this⟩
+        · have := e3 t ht; rw [hfr.2.1] at this; exact this
+      · simp only [lastStop]; exact e7
+
+theorem ok_newTokenizer (inp ctx : List Nat) (mb : Nat) (cdata : Bool) (fe : Err) (hfe : fe = .eof ∨ fe = .other) :
+    Ok (newTokenizer inp ctx mb cdata fe) ∧ Between (newTokenizer inp ctx mb cdata fe) ∧
+    rem (newTokenizer inp ctx mb cdata fe) < (newTokenizer inp ctx mb cdata fe).inp.size + 2 ∧
+    (newTokenizer inp ctx mb cdata fe).rawEnd = 0 ∧ (newTokenizer inp ctx mb cdata fe).fuelOut = false ∧
+    (newTokenizer inp ctx mb cdata fe).inp.toList = inp := by
+  refine ⟨⟨by simp [newTokenizer], ?_⟩, ⟨by simpa [newTokenizer] using hfe, fun h => by simp [newTokenizer] at h⟩,
+    ?_, by simp [newTokenizer], by simp [newTokenizer], by simp [newTokenizer]⟩
+  · rcases hfe with e | e <;> simp [newTokenizer, e]
+  · unfold rem; omega
+
+/-- **Fuel sufficiency**: the exact model never raises its out-of-fuel marker — every
+loop of `Next` (and the driver loop over `Next`) terminates within the fuel it is given,
+for every input. -/
+theorem exact_fuel_never_out (inp ctx : List Nat) (mb : Nat) (cdata : Bool) (fe : Err)
+    (hfe : fe = .eof ∨ fe = .other) :
+    (tokenizeAll (newTokenizer inp ctx mb cdata fe)).2.fuelOut = false := by
+  obtain ⟨h1, h2, h3, h4, h5, h6⟩ := ok_newTokenizer inp ctx mb cdata fe hfe
+  have := (runLoop_facts _ _ [] h1 h2 h3).fuel
+  unfold tokenizeAll
+  rw [this]; exact h5
+
+/-- **Span order** (the Go no-panic invariant) for every token of every run; tokens are non-empty. -/
+theorem exact_span_order (inp ctx : List Nat) (mb : Nat) (cdata : Bool) (fe : Err)
+    (hfe : fe = .eof ∨ fe = .other) :
+    ∀ t ∈ (tokenizeAll (newTokenizer inp ctx mb cdata fe)).1, t.start < t.stop ∧ t.stop ≤ inp.length := by
+  obtain ⟨h1, h2, h3, h4, h5, h6⟩ := ok_newTokenizer inp ctx mb cdata fe hfe
+  obtain ⟨_, rest, zl, e1, e2, e3, _⟩ := runLoop_facts _ _ [] h1 h2 h3
+  unfold tokenizeAll
+  rw [e1]
+  intro t ht
+  simp only [List.reverse_nil, List.nil_append] at ht
+  have := e3 t ht
+  have hl : (newTokenizer inp ctx mb cdata fe).inp.size = inp.length := by simp [newTokenizer]
+  rw [hl] at this; exact this
+
+/-- **Losslessness of the exact model, full strength**: for every input the
+concatenation of the raws of the returned tokens is the input up to the cursor. -/
+theorem exact_lossless (inp ctx : List Nat) (mb : Nat) (cdata : Bool) (fe : Err)
+    (hfe : fe = .eof ∨ fe = .other) :
+    let toks := (tokenizeAll (newTokenizer inp ctx mb cdata fe)).1
+    (raws inp (toks.map fun t => (t.start, t.stop))).flatten = inp.take (lastStop 0 toks) := by
+  intro toks
+  have hch := exact_tokens_chained (newTokenizer inp ctx mb cdata fe)
+  have h4 : (newTokenizer inp ctx mb cdata fe).rawEnd = 0 := (ok_newTokenizer inp ctx mb cdata fe hfe).2.2.2.1
+  rw [h4] at hch
+  have ho : SpanOrder toks := fun t ht => Nat.le_of_lt (exact_span_order inp ctx mb cdata fe hfe t ht).1
+  rw [lastStop_eq_finalCursor]
+  exact prefix_of_chained inp _ (chained_of_startsAt 0 toks hch ho)
+
+theorem getD_toList (a : Array Nat) (i : Nat) (h : i < a.size) : a.getD i 0 = a.toList[i]'(by simpa using h) := by
+  simp [Array.getD, h]
+
+theorem openTagLike_of_OpenTag (inp : Array Nat) (a b : Nat) (hb : b ≤ inp.size) (h : OpenTag inp a b) :
+    openTagLike (slice inp.toList a b) = true := by
+  obtain ⟨h1, h2, h3⟩ := h
+  have hl : inp.toList.length = inp.size := by simp
+  have ha0 : a < inp.toList.length := by omega
+  have ha1 : a + 1 < inp.toList.length := by omega
+  have e0 := getD_toList inp a (by omega)
+  have e1 := getD_toList inp (a + 1) (by omega)
+  unfold slice
+  obtain ⟨k, hk⟩ : ∃ k, b - a = k + 2 := ⟨b - a - 2, by omega⟩
+  rw [hk, List.drop_eq_getElem_cons ha0, List.drop_eq_getElem_cons ha1]
+  simp only [List.take_succ_cons]
+  rw [← e0, ← e1, h2]
+  have il : ∀ c, NetVerif.Model.HtmlTok.isLetter c = NetVerif.Model.HtmlTokExact.isLetter c := fun _ => rfl
+  unfold openTagLike
+  rcases h3 with h3 | ⟨h3, h4, h5⟩
+  · simp [il]; left; simpa using h3
+  · have ha2 : a + 2 < inp.toList.length := by omega
+    have e2 := getD_toList inp (a + 2) (by omega)
+    obtain ⟨k', hk'⟩ : ∃ k', k = k' + 1 := ⟨k - 1, by omega⟩
+    rw [hk', List.drop_eq_getElem_cons ha2]
+    simp only [List.take_succ_cons]
+    rw [← e2]
+    simp [il, h3]; right; simpa using h5
+
+/-- **C39's losslessness clause on the exact model, with the exception stated precisely.**
+For every input (any context tag, MaxBuf, CDATA setting, reader error), with `errRaw` the
+`Raw()` of the final ErrorToken:
+* the raws of the returned tokens followed by `errRaw` are exactly the input up to the cursor;
+* `errRaw` is empty, or it is the tag that was still open: it begins `<`letter or `</`letter;
+* unless tokenization stopped with ErrBufferExceeded, the cursor is the end of the input,
+  so `input = concat raws ++ errRaw`: nothing but a final unterminated tag is ever omitted. -/
+theorem exact_lossless_with_exception (inp ctx : List Nat) (mb : Nat) (cdata : Bool) (fe : Err)
+    (hfe : fe = .eof ∨ fe = .other) :
+    let res := tokenizeAll (newTokenizer inp ctx mb cdata fe)
+    let errRaw := slice inp res.2.rawStart res.2.rawEnd
+    (raws inp (res.1.map fun t => (t.start, t.stop))).flatten ++ errRaw = inp.take res.2.rawEnd ∧
+    (errRaw = [] ∨ openTagLike errRaw = true) ∧
+    (res.2.err ≠ .exceeded → res.2.err ≠ .none → res.2.rawEnd = inp.length) := by
+  intro res errRaw
+  obtain ⟨h1, h2, h3, h4, h5, h6⟩ := ok_newTokenizer inp ctx mb cdata fe hfe
+  obtain ⟨_, rest, zl, e1, e2, e3, e4, e5, e6, e7, e8, e9⟩ := runLoop_facts _ _ [] h1 h2 h3
+  have hres1 : res.1 = rest := by
+    show (tokenizeAll _).1 = rest
+    unfold tokenizeAll; rw [e1]; simp
+  have hres2 : res.2 = (next zl).2 := e8
+  have hl : (newTokenizer inp ctx mb cdata fe).inp.size = inp.length := by simp [newTokenizer]
+  have hfr := next_frame zl
+  have hsp := next_span zl e4
+  have hgood := (good_next zl e4).2 e9
+  have hbd := (next_bound zl e5).1
+  have hstart : res.2.rawStart = lastStop 0 res.1 := by rw [hres2, hfr.1, e7, h4, hres1]
+  have hle : res.2.rawStart ≤ res.2.rawEnd := by rw [hres2]; exact hsp.1
+  have hsz : res.2.rawEnd ≤ inp.length := by
+    rw [hres2]; have := hsp.2.1; rw [hfr.2.1, e6, hl] at this; exact this
+  have hinp : (next zl).2.inp.toList = inp := by rw [hfr.2.1, e6, h6]
+  refine ⟨?_, ?_, ?_⟩
+  · have hloss := exact_lossless inp ctx mb cdata fe hfe
+    simp only at hloss
+    show (raws inp (res.1.map fun t => (t.start, t.stop))).flatten ++ slice inp res.2.rawStart res.2.rawEnd = _
+    rw [hloss, ← hstart]
+    have : inp.take res.2.rawStart = slice inp 0 res.2.rawStart := by simp [slice]
+    rw [this, slice_append inp 0 _ _ (Nat.zero_le _) hle]
+    simp [slice]
+  · rcases hgood with hg | hg
+    · left
+      show slice inp res.2.rawStart res.2.rawEnd = []
+      rw [hres2, hg]; simp [slice]
+    · right
+      show openTagLike (slice inp res.2.rawStart res.2.rawEnd) = true
+      rw [hres2, ← hinp]
+      have hg' : OpenTag (next zl).2.inp (next zl).2.rawStart (next zl).2.rawEnd := by rw [hfr.2.1]; exact hg
+      exact openTagLike_of_OpenTag _ _ _ hsp.2.1 hg'
+  · intro hne hnn
+    have := hbd.fin (by rw [← hres2]; exact hnn) (by rw [← hres2]; exact hne)
+    rw [hfr.2.1, e6, hl, ← hres2] at this
+    omega
+
+end Run
 
 /-- The MaxBuf clause of C39 on the exact model: no returned token is longer than the limit. -/
 def MaxBufStatement : Prop :=
